@@ -999,6 +999,25 @@ pub fn run(opts: &Opts, out: &mut Emitter) {
             }
         }
     }
+    // unclosed: an opener of every bracketing construct written 1..64 times and never closed (a comment inside a
+    // comment, a string, braces, parentheses, brackets), with something between the copies so that no closer appears
+    // by accident, at the start of a text and after a valid program: the answer is an error, at once
+    {
+        let valid = "party A;\ntx t(x: Int) {\n  output {\n    to: A,\n    amount: Ada(x),\n  }\n}\n";
+        for opener in ["/* note ", "/*", "{ a: ", "( 1 + ", "[ 1, ", "\"text ", "tx t() { input s { ", "// line\n/* "] {
+            for k in [1usize, 2, 3, 4, 6, 8, 30, 64] {
+                for after in [false, true] {
+                    // the two longest only in one position each (under a grammar that backtracks over them they cost a
+                    // full timeout apiece)
+                    if (k == 30 && !after) || (k == 64 && after) {
+                        continue;
+                    }
+                    let text = format!("{}{}", if after { valid } else { "" }, opener.repeat(k));
+                    out.case("unclosed", || json!({"input": text, "depth": k, "obs": observe(&text)}));
+                }
+            }
+        }
+    }
     // per-rule expansions embedded where they may occur keep the error rate moderate: a whole
     // program expansion is the main stream, single-rule expansions are spliced into a valid frame
     let frames: Vec<(&str, &str, &str)> = vec![
